@@ -49,7 +49,14 @@ type Prog struct {
 	roleFn    map[string]*ssa.Function
 	roleField map[string]*types.Var
 	roleNotes []string
+
+	preRole   map[string]*ssa.Function
+	NormNotes []string        // what normalize.go did to the source before analysis
+	dropped   map[string]bool // helper functions inlined at every call site ("pkg|recv|name")
 }
+
+// NoNormalize disables normalize.go (debugging).
+var NoNormalize = false
 
 func goEnv(extra ...string) []string {
 	env := []string{}
@@ -77,6 +84,12 @@ func LoadRepo(repo string, whole bool, goarch string, overlay map[string][]byte)
 	if goarch != "" {
 		extra = append(extra, "GOARCH="+goarch, "CGO_ENABLED=0")
 	}
+	var normNotes []string
+	var inlinedHelpers map[string]bool
+	var preloaded []*packages.Package
+	if !NoNormalize {
+		overlay, preloaded, normNotes, inlinedHelpers = normalizeTree(repo, extra, overlay)
+	}
 	cfg := &packages.Config{
 		Mode:    mode,
 		Dir:     repo,
@@ -84,14 +97,20 @@ func LoadRepo(repo string, whole bool, goarch string, overlay map[string][]byte)
 		Tests:   false,
 		Overlay: overlay,
 	}
-	pkgs, err := packages.Load(cfg, "./...")
-	if err != nil {
-		return nil, fmt.Errorf("packages.Load: %v", err)
+	var pkgs []*packages.Package
+	var err error
+	if preloaded != nil && !whole {
+		pkgs = preloaded
+	} else {
+		pkgs, err = packages.Load(cfg, "./...")
+		if err != nil {
+			return nil, fmt.Errorf("packages.Load: %v", err)
+		}
 	}
 	if len(pkgs) == 0 {
 		return nil, fmt.Errorf("no packages loaded from %s", repo)
 	}
-	p := &Prog{Repo: repo, Pkgs: map[string]*packages.Package{}, SSA: map[string]*ssa.Package{}, Whole: whole, GOARCH: goarch, Overlay: overlay}
+	p := &Prog{Repo: repo, Pkgs: map[string]*packages.Package{}, SSA: map[string]*ssa.Package{}, Whole: whole, GOARCH: goarch, Overlay: overlay, NormNotes: normNotes, dropped: inlinedHelpers}
 	var errs []string
 	packages.Visit(pkgs, nil, func(pk *packages.Package) {
 		p.All = append(p.All, pk)
@@ -145,6 +164,7 @@ func LoadRepo(repo string, whole bool, goarch string, overlay map[string][]byte)
 			p.SSA[s] = spkgs[i]
 		}
 	}
+	p.aliasMethodFuncs()
 	p.collectFuncs()
 	if len(p.funcs) < 100 {
 		return nil, fmt.Errorf("only %d module functions found; expected > 100", len(p.funcs))
@@ -190,6 +210,12 @@ func (p *Prog) collectFuncs() {
 	add = func(f *ssa.Function) {
 		if f == nil || seen[f] {
 			return
+		}
+		if f.Parent() == nil && f.Pkg != nil && p.dropped != nil {
+			key := pkgShort[f.Pkg.Pkg.Path()] + "|" + recvStr(f.Signature) + "|" + f.Name()
+			if p.dropped[key] && p.noCallers(f) {
+				return
+			}
 		}
 		seen[f] = true
 		p.funcs = append(p.funcs, f)
@@ -437,4 +463,78 @@ func (p *Prog) Files() []string {
 	}
 	sort.Strings(out)
 	return out
+}
+
+
+// noCallers: no instruction of the module refers to f (every call was inlined).
+func (p *Prog) noCallers(f *ssa.Function) bool {
+	for _, sp := range p.SSA {
+		for _, m := range sp.Members {
+			var fns []*ssa.Function
+			switch m := m.(type) {
+			case *ssa.Function:
+				fns = append(fns, m)
+			case *ssa.Type:
+				for _, tt := range []types.Type{m.Type(), types.NewPointer(m.Type())} {
+					ms := p.Prog.MethodSets.MethodSet(tt)
+					for i := 0; i < ms.Len(); i++ {
+						if g := p.Prog.MethodValue(ms.At(i)); g != nil && g.Pkg == sp {
+							fns = append(fns, g)
+						}
+					}
+				}
+			}
+			for len(fns) > 0 {
+				g := fns[0]
+				fns = append(fns[1:], g.AnonFuncs...)
+				if g == f {
+					continue
+				}
+				for _, b := range g.Blocks {
+					for _, in := range b.Instrs {
+						for _, op := range in.Operands(nil) {
+							if *op == ssa.Value(f) {
+								return false
+							}
+						}
+					}
+				}
+			}
+		}
+	}
+	return true
+}
+
+// aliasMethodFuncs: a canonical method that became a plain function taking the
+// receiver first is found under the canonical name (normalize.go, step 2).
+func (p *Prog) aliasMethodFuncs() {
+	al := methodToFuncAliases(p.Pkgs)
+	if len(al) == 0 {
+		return
+	}
+	if p.roleFn == nil {
+		p.roleFn = map[string]*ssa.Function{}
+	}
+	p.preRole = map[string]*ssa.Function{}
+	for fk, ck := range al {
+		parts := strings.SplitN(fk, ".", 2)
+		sp := p.SSA[parts[0]]
+		if sp == nil {
+			continue
+		}
+		f := sp.Func(parts[1])
+		if f == nil {
+			continue
+		}
+		c := strings.Split(ck, "|") // pkg|recv|name
+		typ := strings.TrimPrefix(c[1], "*")
+		p.preRole[roleKey(c[0], typ, c[2])] = f
+		recv := c[1]
+		name := "(" + c[0] + "." + recv + ")." + c[2]
+		if strings.HasPrefix(recv, "*") {
+			name = "(*" + c[0] + "." + recv[1:] + ")." + c[2]
+		}
+		funcAlias.Store(f, name)
+		p.NormNotes = append(p.NormNotes, fmt.Sprintf("function %s is treated as the method %s (same parameters, receiver first)", fk, name))
+	}
 }
